@@ -61,7 +61,9 @@ add("C05", "e_cache", "exploration",
     "runtime monitoring of operation histories against a sequential model under a virtual clock",
     "Drives Cache and SharedCache through generated histories (insert, re-insert with another TTL, typed/ANY/unchecked lookups, prune, clock advances from 1 ns to 1 h) with the cache's clock "
     "replaced by a controllable one (hook H3), and judges every lookup with a sequential model: nothing served once its lifetime has elapsed, reported TTL never above the time left, "
-    "TTL-0 records never stored through SharedCache, no duplicates, every unexpired unevicted record returned with its data. What is still held after evictions is read from the read-only snapshot hook (H4).",
+    "TTL-0 records never stored through SharedCache, no duplicates, every unexpired unevicted record returned with its data. What is still held after evictions is read from the read-only snapshot hook (H4). "
+    "Resolver leg: a recursive resolution against a generated universe (fake network, hook H1), the same question a little later (no upstream exchange, TTLs reduced and never above the time left) and after the RRset's longest TTL (must be fetched again). "
+    "Thorough adds a Miri shard over short histories and a 2-thread run.",
     "Trusts the model and the clock hook (only Instant::now() inside cache.rs is replaced). Tolerance T3: a record in its last partial second may be missing. Sequential histories only; the threaded use is exercised under C15.",
     "DESIGN.md §6 C05")
 add("C15", "e_cache", "exploration",
